@@ -72,6 +72,7 @@ impl Property for P {
                     symlink: false,
                     bg_cleanup: false,
                     via_logger,
+                    build_variant: 0,
                 };
                 let le = cfg.line_ending().len();
                 let ops = crate::hist::ops_strat_f(Some(n), mode.buffer_cap(), le, false, 40, !mode.is_async());
